@@ -95,4 +95,8 @@ VARIANTS = [
         the_oxygens = [self.atom] + the_other_oxygen
         self.set_center(the_oxygens)
         self.set_interaction_atoms(the_oxygens, the_oxygens)""")]},
+    {'name': 'revert-fix-F62-optargs-splatted', 'rule': 'C12.R4',
+     'edits': [('run.py', "    options = loadOptions(list(optargs) if optargs else None)", "    options = loadOptions(*(optargs or []))")]},
+    {'name': 'grid-splatted-from-unknown-sequence', 'rule': 'C12.R4',
+     'edits': [('molecular_container.py', "        charge_profile: List[List[float]] = []\n        for ph in make_grid(*grid):", "        charge_profile: List[List[float]] = []\n        for ph in make_grid(*self.options.grid):")]},
 ]
